@@ -345,7 +345,7 @@ fn spawn_worker(exe: &str, spec: &WorkerSpec) -> WorkerProc {
         .arg(spec.seed.to_string())
         .stdin(Stdio::piped())
         .stdout(Stdio::piped())
-        .stderr(Stdio::inherit())
+        .stderr(if std::env::var("VCHECK_QUIET_WORKERS").is_ok() { Stdio::null() } else { Stdio::inherit() })
         .spawn()
         .expect("spawn worker");
     let stdin = child.stdin.take().unwrap();
